@@ -8,10 +8,10 @@ import (
 )
 
 func init() {
-	register("C07", ruleC07ScopeArg, ruleC07CteMemo, ruleC07FromArms, ruleC07Alias,
+	register("C07", ruleC07ScopeArg, ruleC07ExistsMerge, ruleC07OwnState, ruleC07CteMemo, ruleC07FromArms, ruleC07Alias,
 		// shared structural conditions of the composed path
 		ruleC09ThunkArms, ruleC14NestedWaits, ruleC20OptionsShared, ruleC10CteReentry)
-	register("C17", ruleC17QuoteStates, ruleC17BracketGuard, ruleC17LengthAccounting, ruleC17OptionOrder)
+	register("C17", ruleC17QuoteStates, ruleC17TerminationByte, ruleC17BracketGuard, ruleC17LengthAccounting, ruleC17OptionOrder)
 }
 
 func ruleC07ScopeArg(c *Ctx) {
@@ -89,6 +89,79 @@ func ruleC07ScopeArg(c *Ctx) {
 			why = append(why, "no success path")
 		}
 		c.Check(len(why) == 0, "c07.scope-arg", key, c.P.Pos(f.Pos()), fmt.Sprintf("%d success paths: Prepare(navigable current row, own subquery, enclosing options), executed, result returned", n), strings.Join(uniq(why), "; "))
+	}
+}
+
+// ruleC07ExistsMerge: EXISTS makes every entry of the (navigable) outer row visible to the nested rows.
+func ruleC07ExistsMerge(c *Ctx) {
+	c.Doc("c07.exists-merge", "EXISTS: the loop that merges the outer row into the copies of the nested rows copies every entry of the outer row — no condition on the key guards the store (in particular the `<-` entry, through which the predicate reaches the enclosing document, is carried over) — and the outer entries are written after the nested row's own entries")
+	f := c.theFunc("EXISTS", "*sqlparser.ExistsExpr", "ExistExpr")
+	if f == nil {
+		c.Unknown("c07.exists-merge", "ExistExpr", "-", "anchor lost")
+		return
+	}
+	n, bad := 0, ""
+	allInstrs(f, func(b *ssa.BasicBlock, in ssa.Instruction) {
+		mu, ok := in.(*ssa.MapUpdate)
+		if !ok {
+			return
+		}
+		ex, ok := mu.Key.(*ssa.Extract)
+		if !ok || ex.Index != 1 {
+			return
+		}
+		nx, ok := ex.Tuple.(*ssa.Next)
+		if !ok {
+			return
+		}
+		src := NewTB().Of(nx.Iter.(*ssa.Range).X).String()
+		if !strings.Contains(src, "p:current") && !strings.Contains(src, "BackwardNavigation(") {
+			return
+		}
+		n++
+		for _, fc := range relFacts(factsAt(b)) {
+			if fc.x == ssa.Value(ex) {
+				bad = "the copy of the outer row's entries is filtered by a condition on the key at " + c.P.Pos(mu.Pos()) + ": an entry of the outer row (e.g. `<-`) is not visible inside the EXISTS predicate"
+			}
+		}
+	})
+	c.Check(n > 0 && bad == "", "c07.exists-merge", c.P.funcKey(f), c.P.Pos(f.Pos()), "every entry of the outer row is copied, unconditionally", func() string {
+		if bad != "" {
+			return bad
+		}
+		return "no loop copies the outer row's entries into the nested rows"
+	}())
+}
+
+// ruleC07OwnState: a query's memo, wait group and post-processor list are its own.
+func ruleC07OwnState(c *Ctx) {
+	c.Doc("c07.own-state", "per-query evaluation state is never shared between two queries: every store to Query.singletonExecutions is a freshly made map (a subquery re-prepared per outer row must not see the aggregates or ONCE results memoised for another row), and Query.postProcessors is only set from a fresh slice or grown by append")
+	n := 0
+	for _, f := range c.P.pkgFuncs(modPath) {
+		allInstrs(f, func(_ *ssa.BasicBlock, in ssa.Instruction) {
+			st, ok := in.(*ssa.Store)
+			if !ok {
+				return
+			}
+			fa, ok := st.Addr.(*ssa.FieldAddr)
+			if !ok || !isNamedType(fa.X.Type(), modPath, "Query") {
+				return
+			}
+			switch fieldName(fa.X.Type(), fa.Field) {
+			case "singletonExecutions":
+				n++
+				_, fresh := st.Val.(*ssa.MakeMap)
+				c.Check(fresh, "c07.own-state", c.P.funcKey(f)+"/singletonExecutions", c.P.Pos(st.Pos()), "a freshly made map", "a query's memo is set to "+NewTB().Of(st.Val).String()+": results memoised by another query (another outer row) are reused")
+			case "postProcessors":
+				n++
+				t := NewTB().Of(st.Val)
+				ok := t.Op == "make" || t.Op == "slice" || t.Op == "call" && t.Name == "builtin:append" && strings.Contains(t.Args[0].String(), ".postProcessors")
+				c.Check(ok, "c07.own-state", c.P.funcKey(f)+"/postProcessors", c.P.Pos(st.Pos()), "fresh or grown by append", "a query's post-processor list is set to "+t.String())
+			}
+		})
+	}
+	if n < 3 {
+		c.Unknown("c07.own-state", "Query-state", "-", fmt.Sprintf("only %d stores to per-query state found", n))
 	}
 }
 
@@ -642,4 +715,78 @@ func ruleC17OptionOrder(c *Ctx) {
 		why = append(why, fmt.Sprintf("only %d of the 8 option combinations have a success path", n))
 	}
 	c.Check(len(why) == 0, "c17.option-order", "New", c.P.Pos(f.Pos()), fmt.Sprintf("%d option combinations: rewrites under their flags, quote rewrite first, both before Parse; data shape", n), strings.Join(uniq(why), "; "))
+}
+
+
+// ruleC17TerminationByte: the byte tested for the end of a quoted region is the byte at the
+// scanner's current position, never a look-ahead (escaped) byte.
+func ruleC17TerminationByte(c *Ctx) {
+	c.Doc("c17.termination-byte", "quote rewriter (DoubleQuotesToBackTick): in each quoted-region loop the value compared with the closing quote to end the region is, on every path, the byte read at the loop's own position (str[i] with i the loop-carried position) or a constant — never the byte read ahead after a backslash (str[i+1]): an escaped quote must not end the region")
+	f := c.P.Func(modPath, "DoubleQuotesToBackTick")
+	if f == nil {
+		c.Unknown("c17.termination-byte", "DoubleQuotesToBackTick", "-", "anchor lost")
+		return
+	}
+	n, bad := 0, ""
+	allInstrs(f, func(_ *ssa.BasicBlock, in ssa.Instruction) {
+		bo, ok := in.(*ssa.BinOp)
+		if !ok || (bo.Op.String() != "!=" && bo.Op.String() != "==") {
+			return
+		}
+		k, isC := constIntOf(bo.Y)
+		if !isC || (k != 39 && k != 34 && k != 96) {
+			return
+		}
+		ph, isPhi := bo.X.(*ssa.Phi)
+		if !isPhi {
+			return
+		}
+		// the comparison must steer a loop: its result feeds an If (possibly through the && lowering)
+		n++
+		seen := map[ssa.Value]bool{}
+		var leaf func(v ssa.Value, d int)
+		leaf = func(v ssa.Value, d int) {
+			if seen[v] || d > 8 || bad != "" {
+				return
+			}
+			seen[v] = true
+			switch x := v.(type) {
+			case *ssa.Phi:
+				for _, e := range x.Edges {
+					leaf(e, d+1)
+				}
+			case *ssa.Const:
+			case *ssa.Convert:
+				ld, ok := x.X.(*ssa.UnOp)
+				if !ok {
+					ix, isIx := x.X.(*ssa.Index)
+					if isIx {
+						if _, isPhiIdx := ix.Index.(*ssa.Phi); !isPhiIdx {
+							bad = "the region-ending test at " + c.P.Pos(bo.Pos()) + " can see the look-ahead byte " + NewTB().Of(x).String()
+						}
+						return
+					}
+					bad = "unrecognised source of the tested byte: " + NewTB().Of(x).String()
+					return
+				}
+				ia, ok := ld.X.(*ssa.IndexAddr)
+				if !ok {
+					bad = "unrecognised source of the tested byte: " + NewTB().Of(x).String()
+					return
+				}
+				if _, isPhiIdx := ia.Index.(*ssa.Phi); !isPhiIdx {
+					bad = "the region-ending test at " + c.P.Pos(bo.Pos()) + " can see the look-ahead byte " + NewTB().Of(x).String()
+				}
+			default:
+				bad = "unrecognised source of the tested byte: " + NewTB().Of(v).String()
+			}
+		}
+		leaf(ph, 0)
+	})
+	c.Check(n >= 3 && bad == "", "c17.termination-byte", "DoubleQuotesToBackTick", c.P.Pos(f.Pos()), fmt.Sprintf("%d region-ending tests read only the byte at the loop position", n), func() string {
+		if bad != "" {
+			return bad
+		}
+		return fmt.Sprintf("only %d region-ending tests found", n)
+	}())
 }
